@@ -95,3 +95,46 @@ def impl_pybind(text, tpl, module_name, top, boost, ignore, subs):
 def model_pybind(driver, text, tpl, module_name, top, boost, ignore, subs):
     return driver.call("pybind", text, tpl, module_name, enc_list(top), "1" if boost else "0", enc_list(ignore),
                        "-" if subs is None else enc_list(subs))
+
+
+def impl_matlab(texts, module_name, ignore, boost):
+    """the real MATLAB generator writing into a scratch directory; returns ('ok', {relpath: text}) | ('err', kind)"""
+    import shutil
+    import tempfile
+    from gtwrap.matlab_wrapper import MatlabWrapper
+    d = tempfile.mkdtemp(prefix="verif_matlab_")
+    try:
+        srcs = []
+        for i, t in enumerate(texts):
+            p = os.path.join(d, "src%d.i" % i)
+            with open(p, "w", encoding="utf-8", newline="") as f:
+                f.write(t)
+            srcs.append(p)
+        out = os.path.join(d, "out")
+        os.makedirs(out)
+        try:
+            w = MatlabWrapper(module_name=module_name, ignore_classes=list(ignore), use_boost_serialization=boost)
+            w.wrap(srcs, path=out)
+        except Exception as e:  # noqa
+            return ("err", classify_exc(e))
+        files = {}
+        for root, _, fs in os.walk(out):
+            for fn in fs:
+                p = os.path.join(root, fn)
+                with open(p, encoding="utf-8", newline="") as f:
+                    files[os.path.relpath(p, out)] = f.read()
+        return ("ok", files)
+    finally:
+        shutil.rmtree(d, ignore_errors=True)
+
+
+def model_matlab(driver, text, module_name, ignore, boost):
+    st, out = driver.call("matlab", text, module_name, enc_list(ignore), "1" if boost else "0")
+    if st != "ok":
+        return (st, out)
+    files = {}
+    if out:
+        for ent in out.split("\x1e"):
+            p, t = ent.split("\x1f", 1)
+            files[p] = t
+    return ("ok", files)
